@@ -200,11 +200,12 @@ Fixpoint queue_actions (cx : ctx) (acts : list action) : res (ctx * list event) 
 Definition handler_consume (hd : handler) (cx : ctx) (index : N) (pk : pkt) : res (handler * ctx * list event) :=
   match hd with
   | HPat s c =>
+      (* the application wraps the table filters too, so that the trace shows every dispatched packet *)
       do r <- spc_consume (table_cfg fuzzing) pat_state ctx event pat_section c cx pk;
-      Ok (HPat s (fst (fst r)), snd (fst r), snd r)
+      Ok (HPat s (fst (fst r)), snd (fst r), EvPacket s index [] :: snd r)
   | HPmt s c =>
       do r <- spc_consume (table_cfg fuzzing) pmt_state ctx event pmt_section c cx pk;
-      Ok (HPmt s (fst (fst r)), snd (fst r), snd r)
+      Ok (HPmt s (fst (fst r)), snd (fst r), EvPacket s index [] :: snd r)
   | HPes s f =>
       (* the application wraps the PES filter so that it sees which packet is being consumed *)
       do r <- pf_consume f pk;
